@@ -283,4 +283,17 @@ example : PerChildTimeOrdered [⟨0, 2, 9, 2, 1, 1, false⟩, ⟨1, 2, 3, 2, 1, 
         simp [List.filter_cons, ha, hb, hc, Ne.symm h0, Ne.symm h1]
       rw [this _ _ _ rfl rfl rfl]; exact List.Pairwise.nil
 
+/-- the full hypothesis set of the geometry theorems: a fully annotated way, annotated updates, all in range
+    (index-sorted with two updates of child 0, one stamped later than t) -/
+def exWay : List Child := [⟨100, 1, 10, 5, 6, 0⟩, ⟨101, 1, 10, 7, 8, 0⟩]
+def exUps : List Update := [⟨0, 2, 3, 11, 15, 16, false⟩, ⟨0, 3, 9, 12, 25, 26, false⟩, ⟨1, 2, 4, 11, 17, 18, false⟩]
+example : FullyAnnotated exWay ∧ AnnotatedUpdates exUps ∧ InRange 5 exWay.length exUps := by
+  refine ⟨?_, ?_, ?_⟩
+  · intro c hc; simp only [exWay, List.mem_cons, List.not_mem_nil, or_false] at hc; rcases hc with rfl | rfl <;> decide
+  · intro u hu; simp only [exUps, List.mem_cons, List.not_mem_nil, or_false] at hu; rcases hu with rfl | rfl | rfl <;> decide
+  · intro u hu _; simp only [exUps, List.mem_cons, List.not_mem_nil, or_false] at hu; rcases hu with rfl | rfl | rfl <;> decide
+example : lineStringAt 5 exWay exUps = [(16, 15), (18, 17)] ∧ lineString (applyUpTo false 5 exWay exUps).children = [(16, 15), (18, 17)] := by decide
+/-- an applicable update out of range: the index is reported, nothing outside the list is touched -/
+example : (applyUpTo false 5 exWay [⟨0, 2, 3, 11, 15, 16, false⟩, ⟨9, 2, 4, 11, 1, 1, false⟩]).err = some 9 := by decide
+
 end OsmVerif.Props.C15
